@@ -430,6 +430,82 @@ def explore_family(ctx: Ctx, fname: str) -> Result:
     return res
 
 
+def member_order_stage(ctx: Ctx) -> Result:
+    """The same traces with the members of the unions INSIDE their types written in different orders (as two runs record
+    them when dict keys / set elements are met in a different order): equal stubs up to union member order. Every
+    assignment of member orders to the traces, default rewriter and none, k in {0, 3}."""
+    import importlib
+    from typing import Dict as D
+    from typing import List as L
+    from typing import Set as St
+    from typing import Union as U
+
+    import vfx.shapes as S
+    from monkeytype.stubs import build_module_stubs_from_traces
+    from monkeytype.tracing import CallTrace
+    from monkeytype.typing import DEFAULT_REWRITER, NoOpRewriter
+
+    res = Result()
+    A, B = U[int, str], U[str, int]
+    assert A == B and A is not B
+    # typing caches generic aliases by EQUALITY of their arguments (Dict[B, str] returns an earlier Dict[A, str]), so every
+    # assignment of member orders gets value types of its own and the canonical forms are compared after renaming them
+    vsets = [(float, bytes, complex), (bytearray, range, slice), (frozenset, memoryview, bool), (S.Base, S.Other, S.Derived)]
+    shapes = [
+        ("dict-key-unions", lambda k1, k2, v: [(S.mfunc, {"x": D[k1, v[0]]}, D[k1, v[0]]), (S.mfunc, {"x": D[k2, v[1]]}, D[k2, v[1]])]),
+        ("list-element-unions", lambda k1, k2, v: [(S.mfunc, {"x": D[v[0], L[k1]]}, L[v[0]]), (S.mfunc, {"x": D[v[0], L[k2]]}, St[v[1]])]),
+        ("three-dicts", lambda k1, k2, v: [(S.mfunc, {"x": D[k1, v[0]]}, int), (S.mfunc, {"x": D[k2, v[1]]}, int), (S.mfunc, {"x": D[k1, v[2]]}, int)]),
+    ]
+    mod = importlib.import_module("vfx.shapes")
+
+    def neutral(canon: Any, v) -> Any:
+        names = {c: f"<V{i}>" for i, c in enumerate(v)}
+
+        def walk(x: Any) -> Any:
+            if isinstance(x, type):
+                return names.get(x, x)
+            if isinstance(x, tuple):
+                return tuple(walk(y) for y in x)
+            if isinstance(x, frozenset):
+                return frozenset(walk(y) for y in x)
+            if isinstance(x, dict):
+                return tuple(sorted(((walk(k_), walk(v_)) for k_, v_ in x.items()), key=repr))
+            if isinstance(x, list):
+                return tuple(walk(y) for y in x)
+            return x
+
+        return walk((canon[0], canon[1]))   # functions and TypedDict classes (the import lists differ with the value classes)
+
+    for sname, mk in shapes:
+        for k in (0, 3):
+            for rname, rw in (("default", DEFAULT_REWRITER), ("none", NoOpRewriter())):
+                ref = None
+                for ci, (k1, k2) in enumerate(((A, B), (B, A), (A, A), (B, B))):
+                    v = vsets[ci]
+                    res.states += 1
+                    res.transitions += 1
+                    res.evaluations += 1
+                    res.validated += 1
+                    case = {"family": "member-order:" + sname, "k": k, "rewriting": rname == "default", "history": 0, "policy": ["member-order", 0, 0], "orders": [k1 is A, k2 is A]}
+                    try:
+                        traces = [CallTrace(f, dict(a), r, None) for f, a, r in mk(k1, k2, v)]
+                        text = build_module_stubs_from_traces(traces, k, rewriter=rw)["vfx.shapes"].render()
+                    except Exception as e:  # noqa: BLE001
+                        res.violate(Violation(ID, "exception", "member-order:" + sname, case, f"raised {e!r}"))
+                        continue
+                    bad, canon = canonical(text, mod)
+                    if bad:
+                        res.violate(Violation(ID, "order-dependence", "member-order:" + sname, case, f"stub unreadable: {bad}"))
+                        continue
+                    n = neutral(canon, v)
+                    if ref is None:
+                        ref = (n, text)
+                    elif n != ref[0]:
+                        res.violate(Violation(ID, "order-dependence", "union-member-order-inside-the-traces:" + sname, case, f"{sname}, rewriter {rname}, k={k}: traces whose inner unions are written in the orders ({'int,str' if k1 is A else 'str,int'} / {'int,str' if k2 is A else 'str,int'}) and in the orders (int,str / str,int) give different stubs (value classes renamed):\n--- one ---\n{ref[1][:300]}\n--- other ---\n{text[:300]}"))
+    res.oblige("member-order-inside-traces", True)
+    return res
+
+
 def run(ctx: Ctx) -> Result:
     names = list(families())
 
@@ -437,6 +513,8 @@ def run(ctx: Ctx) -> Result:
         return explore_family(ctx, fname)
 
     res = run_shards(ctx, work, names)
+    res.merge(member_order_stage(ctx))
+    res.obligations.setdefault("member-order-inside-traces", False)
     res.obligations.setdefault("seam-consulted", False)
     res.obligations.setdefault("fresh-interpreters", False)
     res.obligations.setdefault("StubIndexBuilder-splits", False)
@@ -445,6 +523,8 @@ def run(ctx: Ctx) -> Result:
 
 
 def replay(case: Dict[str, Any], ctx: Ctx) -> List[Violation]:
+    if str(case.get("family", "")).startswith("member-order:"):
+        return member_order_stage(ctx).violations
     r = explore_family(ctx, case["family"])
     want = (case["k"], case["rewriting"])
     return [v for v in r.violations if (v.case["k"], v.case["rewriting"]) == want] or r.violations
